@@ -20,6 +20,16 @@ from .common.facts import walk, walk_parents, strip, strip_all, call_args, Analy
 from .common import paths
 
 
+def conjuncts(n):
+    """operands of a (possibly nested) && condition"""
+    n = strip(n)
+    while n is not None and n.get('k') == 'ParenExpr' and n.get('c'):
+        n = strip(n['c'][0])
+    if n is not None and n.get('k') == 'BinaryOperator' and n.get('op') == '&&':
+        return conjuncts(n['c'][0]) + conjuncts(n['c'][1])
+    return [n] if n is not None else []
+
+
 def run(ctx):
     F = ctx.facts
     for rid, t in [('R23.1', 'the raw logger is used only to construct wrappers'),
@@ -28,6 +38,7 @@ def run(ctx):
                    ('R23.4', 'hasToLog consults the suppression list')]:
         ctx.rule(rid, t)
 
+    r23_5(ctx)
     # ---- R23.1 ------------------------------------------------------------------------------------------
     users = []
     for f in F.all_fns():
@@ -127,7 +138,7 @@ def run(ctx):
     # (a) the arm sets the flag on every fallthrough
     arm = None
     for x in walk(body):
-        if x.get('k') == 'IfStmt' and x.get('cond') is not None and is_nomsg_suppressed(x['cond']):
+        if x.get('k') == 'IfStmt' and x.get('cond') is not None and any(is_nomsg_suppressed(c) for c in conjuncts(x['cond'])):
             arm = x
             break
     if arm is None:
@@ -186,3 +197,37 @@ def run(ctx):
     consults = any(c['f'].startswith('SuppressionList::isSuppressed(') for c in h['calls']) and any(a['n'] == 'Suppressions::nomsg' for a in h['acc'])
     ctx.ob('R23.4', 'hasToLog', consults, 'Executor::hasToLog tests mSuppressions.nomsg.isSuppressed(...)' if consults else
            'Executor::hasToLog no longer consults the nomsg suppression list', '%s:%d' % (h['file'], h['line']))
+
+
+def r23_5(ctx):
+    """R23.5  one implementation of base-path stripping: a suppression matches a finding by file name, and with -rp both names are
+    relative.  Every reader of Settings::basePaths in lib/ (outside the option parsers) passes it straight to Path::getRelativePath,
+    so the name of an inline suppression (preprocessor) and the name of a finding (TokenList) are produced by the same function."""
+    F = ctx.facts
+    ctx.rule('R23.5', 'base paths are stripped only by Path::getRelativePath (suppression and finding file names agree)')
+    SETUP = ('ImportProject::', 'CmdLineParser::', 'Settings::')
+    n = 0
+    for f in F.all_fns():
+        if not f['file'].startswith('lib/') or f['name'].startswith(SETUP):
+            continue
+        if not any(a['n'] == 'Settings::basePaths' for a in f['acc']):
+            continue
+        b = F.body(f)
+        if b is None:
+            continue
+        for x, parents in walk_parents(b['body']):
+            if x.get('k') == 'MemberExpr' and x.get('n') == 'Settings::basePaths':
+                n += 1
+                call = None
+                for p in reversed(parents):
+                    if p.get('k') in ('ImplicitCastExpr', 'MaterializeTemporaryExpr'):
+                        continue
+                    call = p
+                    break
+                ok = call is not None and call.get('k') == 'CallExpr' and call.get('fn') == 'Path::getRelativePath'
+                ctx.ob('R23.5', 'basepaths:%s' % f['name'], ok,
+                       ('%s passes the base paths to Path::getRelativePath' % f['name']) if ok else
+                       ('%s reads Settings::basePaths at line %s outside a Path::getRelativePath call (%s): a private copy of the stripping logic can disagree with the '
+                        'names used in findings, and then file-scoped (inline) suppressions silently stop matching' % (f['name'], x['l'], (call or {}).get('k'))),
+                       '%s:%s' % (f['file'], x['l']))
+    ctx.floor('R23.5 readers of Settings::basePaths in lib/', n, 4)
